@@ -1,6 +1,7 @@
 package drv
 
 import (
+	"os"
 	"strconv"
 	"sync"
 
@@ -145,6 +146,10 @@ func sameSeq(a, b []string) bool {
 func (s *Session) baseUmask() int {
 	if s.Target == "osfs" {
 		return -1
+	}
+
+	if s.CwdFS != nil {
+		return int(s.CwdFS.UMask()) // the acting user's own view (C03): its umask is the one in force
 	}
 
 	return int(s.base().UMask())
@@ -392,7 +397,13 @@ func Applicable(target string, c Call) bool {
 // ReplayEdges reads TLC edges, replays the shard's share against fresh sessions and writes one
 // EdgeResult line for every edge that did not conform.
 // MaxBadTraces bounds the non-conforming steps written out with their trace.
-const MaxBadTraces = 3000
+var MaxBadTraces = func() int {
+	if n, err := strconv.Atoi(os.Getenv("VERIF_MAXBAD")); err == nil && n > 0 {
+		return n
+	}
+
+	return 3000
+}()
 
 func ReplayEdges(f *Factory, in io.ReadSeeker, out io.Writer, shard, nshard int, names []string, workers int) (ReplayStats, error) {
 	var (
